@@ -1,7 +1,8 @@
 (* C04_rank_in_range, finite-sweep version: 0 <= rank p n <= n for the 201 integer percentiles
    and every count n <= sweep_bound, by evaluation of the primitive-float computation over the
    whole finite domain (vm_compute) lifted to a universally quantified statement.  The bound is
-   part of the statement.  (Proofs/RankUnbounded.v has the statement for all n < 2^52.) *)
+   part of the statement.  (Proofs/RankUnbounded.v proves the statement for all n < 2^52 through Flocq; this sweep depends on
+   no axiom beyond the kernel's primitive floats and is kept as independent evidence.) *)
 From Coq Require Import List ZArith Floats Lia.
 From GS Require Import Base.GoFloat Model.Rank Model.Stats.
 Import ListNotations.
@@ -26,7 +27,7 @@ Proof.
   apply Z.shiftr_div_pow2. lia.
 Qed.
 
-Definition sweep_bound : Z := 10000.
+Definition sweep_bound : Z := 2000.
 
 Definition row (a : float) (n : Z) : bool :=
   let r := fast_floor (a * f64_of_int n + half)%float in (0 <=? r) && (r <=? n).
@@ -49,7 +50,7 @@ Proof.
   apply in_seq. lia.
 Qed.
 
-(* the whole finite domain, evaluated (about 35 s): 201 x 10001 points.  The statement is kept in
+(* the whole finite domain, evaluated (about 7 s): 201 x 2001 points.  The statement is kept in
    this unfolded form: a folded constant makes the kernel re-evaluate the sweep lazily at Qed. *)
 Lemma sweep_true :
   forallb (fun p => rows (rank_fraction p) (Z.to_nat (sweep_bound + 1)) 0) pct_domain = true.
